@@ -32,6 +32,14 @@ Theorems (Property.v) — all at full strength since the fix commits 0346f88, fc
       outputs) and C14_outputfix_outputs_owned (every output is an old output or the output of an Identity appended
       to THAT graph); RemoveUnusedOpsetsPass model (Model.uo_pass) with C14_unused_opsets_contract (flag iff
       unchanged; second run reports False).
+  second deepening round — the infrastructure model is now the SOURCE: generate() transcribes the bodies of
+      PassBase.__call__, Sequential.call, PassManager.call and _FunctionalPassWrapper.call statement by statement into the
+      small statement language of C14/PyInfra.v (Gen/C14InfraGen.v, regenerated every run, fail closed: any construct
+      outside the language = broken obligation), and C14_passbase_call_translated / C14_sequential_call_translated /
+      C14_passmanager_call_translated / C14_functional_call_translated prove that the interpretation of the transcribed
+      bodies equals Model.wrap / seq_loop / mgr_loop / the functionalize body — for a Model argument and for a PassResult
+      argument with any incoming flag.  A change to those methods therefore breaks a PROOF (seeded r5m1, r2m2: 1/29
+      obligations + replay), not only the sampled correspondence.
   history: C14_history_before_fixes — the models of the code BEFORE the fix commits violate (e)/(b) on six
       witnesses and the current models do not (the witnesses are corpus cases replayed on the implementation).
   Print Assumptions: every theorem closed under the global context.  ck.level = "proof".
@@ -50,6 +58,7 @@ Tie (correspondence, inside Coq via case files; any disagreement = broken corres
   unused_opsets  RemoveUnusedOpsetsPass(process_functions True/False) on function_family + 100 generated models:
           opset_imports keys and node domains of the main graph and of every function + flag == Model.uo_pass.
   Gen/C14Gen.v: _BIG_TENSOR_SIZE_LIMIT regenerated from the source each run (fail closed).
+  Gen/C14InfraGen.v: the four infrastructure method bodies as PyInfra.stmt terms, regenerated each run (fail closed).
 Oracle (the property, public accessors only; _c14_impl.oracle_run): each pass up to size+2 rounds: identity rule;
   modified=False => SerializeToString(deterministic=True) byte-equal; a round with False within the bound, and the
   following round changes nothing; I1-I6 link consistency, sorted stays sorted, names needed by serialization kept,
@@ -122,6 +131,184 @@ Import ListNotations.
 """
 
 
+# =========================================================================== fail-closed transcription of the
+# bodies of PassBase.__call__ / Sequential.call / PassManager.call / _FunctionalPassWrapper.call into C14.PyInfra.stmt
+
+SRC_INFRA = os.path.join(REPO, "src", "onnx_ir", "passes", "_pass_infra.py")
+_XCLS = {"PreconditionError": "XPre", "PostconditionError": "XPost", "PassError": "XPass", "TypeError": "XType"}
+
+
+class _Tr:
+    """Python ast -> C14.PyInfra.stmt term.  Everything outside the small language raises T.Unsupported."""
+
+    def __init__(self, params: list[str]):
+        self.vars = {p: i for i, p in enumerate(params)}
+
+    def var(self, name: str, define: bool = False) -> int:
+        if name not in self.vars:
+            if not define:
+                raise T.Unsupported(f"use of unknown variable {name}")
+            self.vars[name] = len(self.vars)
+        return self.vars[name]
+
+    def expr(self, e) -> str:
+        import ast
+        if isinstance(e, ast.Name):
+            return f"(EVar {self.var(e.id)})"
+        if isinstance(e, ast.Constant) and isinstance(e.value, bool):
+            return f"(EConst {cbool(e.value)})"
+        if isinstance(e, ast.Attribute):
+            if isinstance(e.value, ast.Name) and e.value.id == "self":
+                if e.attr == "in_place":
+                    return "ESelfInPlace"
+                if e.attr == "early_stop":
+                    return "ESelfEarlyStop"
+                raise T.Unsupported(f"self.{e.attr}")
+            if e.attr == "model":
+                return f"(EModel {self.expr(e.value)})"
+            if e.attr == "modified":
+                return f"(EModified {self.expr(e.value)})"
+            raise T.Unsupported(f"attribute .{e.attr}")
+        if isinstance(e, ast.UnaryOp) and isinstance(e.op, ast.Not):
+            return f"(ENot {self.expr(e.operand)})"
+        if isinstance(e, ast.BoolOp):
+            c = "EAnd" if isinstance(e.op, ast.And) else "EOr"
+            out = self.expr(e.values[-1])
+            for v in reversed(e.values[:-1]):
+                out = f"({c} {self.expr(v)} {out})"
+            return out
+        if isinstance(e, ast.Compare) and len(e.ops) == 1 and isinstance(e.ops[0], (ast.Is, ast.IsNot)):
+            c = "EIs" if isinstance(e.ops[0], ast.Is) else "EIsNot"
+            return f"({c} {self.expr(e.left)} {self.expr(e.comparators[0])})"
+        if isinstance(e, ast.Call) and isinstance(e.func, ast.Name) and not e.keywords:
+            if e.func.id == "isinstance" and len(e.args) == 2 and isinstance(e.args[1], ast.Name) and e.args[1].id == "PassResult":
+                return f"(EIsResult {self.expr(e.args[0])})"
+            if e.func.id == "PassResult" and len(e.args) == 2:
+                return f"(EResult {self.expr(e.args[0])} {self.expr(e.args[1])})"
+        raise T.Unsupported(f"expression {ast.dump(e)[:80]}")
+
+    def hook(self, call):
+        """(hook term, argument expr) when `call` is one of the calls the language knows, else None."""
+        import ast
+        if not isinstance(call, ast.Call) or call.keywords or len(call.args) != 1:
+            return None
+        f, a = call.func, call.args[0]
+        if isinstance(f, ast.Attribute) and isinstance(f.value, ast.Name) and f.value.id == "self":
+            if f.attr in ("requires", "call", "ensures"):
+                return {"requires": "HRequires", "call": "HCall", "ensures": "HEnsures"}[f.attr], self.expr(a)
+            if f.attr == "_inner_pass" and isinstance(a, ast.Call) and isinstance(a.func, ast.Attribute) \
+                    and a.func.attr == "clone" and not a.args and not a.keywords:
+                return "HInnerClone", self.expr(a.func.value)
+            return None
+        if isinstance(f, ast.Attribute) and f.attr == "call" and isinstance(f.value, ast.Call) \
+                and isinstance(f.value.func, ast.Name) and f.value.func.id == "super" and not f.value.args:
+            return "HSuper", self.expr(a)
+        if isinstance(f, ast.Name) and f.id in self.vars:
+            return f"(HPass {self.vars[f.id]})", self.expr(a)
+        return None
+
+    def raise_(self, st, in_handler: bool) -> str:
+        import ast
+        if st.exc is None:
+            if not in_handler:
+                raise T.Unsupported("bare raise outside a handler")
+            return "SReraise"
+        if isinstance(st.exc, ast.Call) and isinstance(st.exc.func, ast.Name) and st.exc.func.id in _XCLS:
+            return f"(SRaise {_XCLS[st.exc.func.id]})"
+        raise T.Unsupported(f"raise {ast.dump(st.exc)[:60]}")
+
+    def block(self, stmts, in_handler: bool = False) -> str:
+        import ast
+        out = []
+        for st in stmts:
+            if isinstance(st, ast.Expr) and isinstance(st.value, ast.Constant) and isinstance(st.value.value, str):
+                continue                                            # docstring
+            if isinstance(st, ast.Expr) and isinstance(st.value, ast.Call) and isinstance(st.value.func, ast.Attribute) \
+                    and isinstance(st.value.func.value, ast.Name) and st.value.func.value.id == "logger":
+                continue                                            # pure logging
+            if isinstance(st, ast.Expr):
+                h = self.hook(st.value)
+                if h is None:
+                    raise T.Unsupported(f"expression statement {ast.dump(st.value)[:80]}")
+                out.append(f"(SHook None {h[0]} {h[1]})")
+            elif isinstance(st, ast.Assign) and len(st.targets) == 1 and isinstance(st.targets[0], ast.Name):
+                if in_handler and isinstance(st.value, ast.ListComp):
+                    continue                                        # builds the text of the error message only
+                h = self.hook(st.value)
+                x = self.var(st.targets[0].id, define=True)
+                out.append(f"(SHook (Some {x}) {h[0]} {h[1]})" if h else f"(SAssign {x} {self.expr(st.value)})")
+            elif isinstance(st, ast.If):
+                out.append(f"(SIf {self.expr(st.test)} {self.block(st.body, in_handler)} {self.block(st.orelse, in_handler)})")
+            elif isinstance(st, ast.Try) and not st.orelse and not st.finalbody:
+                hs = "SNoHandler"
+                for h in reversed(st.handlers):
+                    if not isinstance(h.type, ast.Name) or h.type.id not in ("PreconditionError", "PostconditionError", "Exception"):
+                        raise T.Unsupported("exception handler type")
+                    pat = "None" if h.type.id == "Exception" else f"(Some {_XCLS[h.type.id]})"
+                    hs = f"(SHandler {pat} {self.block(h.body, True)} {hs})"
+                out.append(f"(STry {self.block(st.body, in_handler)} {hs})")
+            elif isinstance(st, ast.Raise):
+                out.append(self.raise_(st, in_handler))
+            elif isinstance(st, ast.Return) and st.value is not None:
+                h = self.hook(st.value)
+                if h:
+                    x = self.var("$ret", define=True)
+                    out.append(f"(SHook (Some {x}) {h[0]} {h[1]})")
+                    out.append(f"(SReturn (EVar {x}))")
+                else:
+                    out.append(f"(SReturn {self.expr(st.value)})")
+            elif isinstance(st, ast.Break):
+                out.append("SBreak")
+            elif isinstance(st, ast.For) and not st.orelse:
+                it = st.iter
+                if isinstance(st.target, ast.Tuple) and len(st.target.elts) == 2 and isinstance(it, ast.Call) \
+                        and isinstance(it.func, ast.Name) and it.func.id == "enumerate" and len(it.args) == 1 \
+                        and ast.dump(it.args[0]) == ast.dump(ast.parse("self.passes", mode="eval").body):
+                    i = self.var(st.target.elts[0].id, define=True)
+                    x = self.var(st.target.elts[1].id, define=True)
+                    out.append(f"(SForPasses {i} {x} {self.block(st.body, in_handler)})")
+                elif isinstance(st.target, ast.Name) and isinstance(it, ast.Call) and isinstance(it.func, ast.Name) \
+                        and it.func.id == "range" and len(it.args) == 1 \
+                        and ast.dump(it.args[0]) == ast.dump(ast.parse("self.steps", mode="eval").body):
+                    x = self.var(st.target.id, define=True)
+                    out.append(f"(SForSteps {x} {self.block(st.body, in_handler)})")
+                else:
+                    raise T.Unsupported("for loop shape")
+            else:
+                raise T.Unsupported(f"statement {type(st).__name__} at line {st.lineno}")
+        if not out:
+            return "SSkip"
+        term = out[-1]
+        for t in reversed(out[:-1]):
+            term = f"(SSeq {t} {term})"
+        return term
+
+
+def translate_infra() -> str:
+    import ast
+    with open(SRC_INFRA, encoding="utf-8") as f:
+        mod = ast.parse(f.read())
+    classes = {n.name: n for n in mod.body if isinstance(n, ast.ClassDef)}
+    text = ("(* GENERATED by harness/props/c14.py from passes/_pass_infra.py on every run - do not edit. *)\n"
+            "From Coq Require Import List Bool Arith.\nFrom IRV Require Import Base.Exn Gen.C14Gen C14.Model C14.PyInfra.\n"
+            "Import ListNotations.\nLocal Open Scope nat_scope.\n\n")
+    for cls, meth, name in (("PassBase", "__call__", "passbase_call_body"), ("Sequential", "call", "sequential_call_body"),
+                            ("PassManager", "call", "passmanager_call_body"),
+                            ("_FunctionalPassWrapper", "call", "functional_call_body")):
+        fn = next((n for n in classes[cls].body if isinstance(n, ast.FunctionDef) and n.name == meth), None)
+        if fn is None:
+            raise T.Unsupported(f"{cls}.{meth} not found")
+        a = fn.args
+        if a.vararg or a.kwarg or a.kwonlyargs or a.defaults or len(a.posonlyargs) + len(a.args) != 2:
+            raise T.Unsupported(f"{cls}.{meth}: signature")
+        params = [x.arg for x in (a.posonlyargs + a.args)][1:]
+        tr = _Tr(params)
+        body = tr.block(fn.body)
+        text += (f"(* {cls}.{meth}  variables: {', '.join(f'{v}={k}' for k, v in tr.vars.items())} *)\n"
+                 f"Definition {name} : stmt :=\n  {body}.\n\n")
+    return text
+
+
 def generate(ck) -> bool:
     try:
         text = T.HEADER + T.translate_int_constant(SRC_API, "_BIG_TENSOR_SIZE_LIMIT")[0]
@@ -129,6 +316,11 @@ def generate(ck) -> bool:
         ck.gen_failed("C14Gen", e)
         return False
     ck.gen("C14Gen", text)
+    try:
+        ck.gen("C14InfraGen", translate_infra())
+    except (T.Unsupported, SyntaxError, OSError, KeyError, ValueError, StopIteration) as e:
+        ck.gen_failed("C14InfraGen", e)
+        return False
     return True
 
 
@@ -916,7 +1108,7 @@ def reuse_stream(ck, specs: list[dict]) -> None:
                             {"mgr": ["Inline", "RemoveUnusedFunctions", "RemoveUnusedOpsets"], "steps": 3, "early": True},
                             {"seq": ["RemoveUnusedFunctions", "RemoveUnusedNodes"]}, {"fun": "RemoveUnusedFunctions"},
                             {"fun": "Inline"}]
-    orders = [[0, 1, 2, 3, 4, 5, 6], [6, 5, 4, 3, 2, 1, 0], [4, 0, 3, 0, 1, 5, 2], [2, 3, 6, 1, 0]]
+    orders = [[0, 1, 2, 3, 4, 5, 6], [6, 5, 4, 3, 2, 1, 0], [4, 0, 3, 0, 1, 5, 2]]
     reported = 0
     for ps in pspecs:
         seqs = [[fam[i] for i in o] for o in orders]
@@ -1218,6 +1410,10 @@ def run(ck) -> None:
     logging.disable(logging.WARNING)
     ck.trust("Coq 8.16.1 kernel (coqc; vm_compute in case files; no native_compute)",
              "tools/translate.py (fail-closed translator; here only the integer constant _BIG_TENSOR_SIZE_LIMIT)",
+             "harness/props/c14.py::_Tr (syntactic transcription Python ast -> C14.PyInfra.stmt, fail closed) and the "
+             "interpreter C14/PyInfra.v::run (the semantics given to that Python fragment: try/except by class, "
+             "short-circuit and/or, `is`, for/enumerate/range/break; hooks self.requires/call/ensures, member passes, "
+             "super().call, model.clone as section-level functions)",
              "harness/props/c14.py + _c14_impl.py (generators, abstraction functions model<->IR objects, Coq literal printer, oracle)",
              "modelled not verified: Graph.sort (C12), RecursiveGraphIterator order, ONNX op schemas, Model.clone (C13), "
              "serialization (C02/C03), onnx.checker / onnx.shape_inference")
@@ -1260,7 +1456,7 @@ def run(ck) -> None:
                 records.append({"spec": c["spec"], "pass": c["pass"], "fault": c.get("fault"), "failure": f})
         except Exception as e:  # noqa: BLE001
             ck.broken("corpus-case-error", f"{type(e).__name__}: {e}")
-    records += oracle_sweep(ck, 150 * scale, 400 * scale, [c["spec"] for c in corpus])
+    records += oracle_sweep(ck, 110 * scale, 300 * scale, [c["spec"] for c in corpus])
     # direct oracle failures of the correspondence families
     whats = {k["key"]: k["what"] for k in ck._known if k.get("status") == "known"}
     for d in direct:
@@ -1370,7 +1566,7 @@ All reported VIOLATION; "replay" = a concrete failing input found by the oracle,
        (gen_spec: Spare->F0, Spare2->Spare->F0, F0->F1) + deterministic function_family() run fresh for every pass.
  S6  (seeded/C14-r3m3) RemoveUnusedFunctionsPass keeps `_used` across calls -> FIRST MISSED (a fresh pass object per
        case); now replay kind oracle-reuse: reuse_stream() applies ONE pass object / PassManager to sequences of
-       different models (function_family in 4 orders + a random sequence, every catalog pass + 5 compositions), runs the
+       different models (function_family in 3 orders + a random sequence, every catalog pass + 5 compositions), runs the
        per-model oracle each time and compares the per-round behaviour with a fresh instance (shrunk to the shortest
        failing sequence: [main->F0, main->F0->F1] -> dangling-call fdom::F1 + reuse mismatch).
  S7  (seeded/C14-r4m3) OutputFixPass appends the alias Identity of a duplicated SUBGRAPH output to the root graph
